@@ -236,7 +236,8 @@ def range_values(L, rng, tier):
              f'bytes={L}-{L},0-0', f'bytes=0-0,{L - 1}-{L}' if L else 'bytes=0-0,0-1', f'bytes=-{L},-{L + 1}', 'bytes=0-0,a-b', 'bytes=a-b,0-0', 'bytes=0-0;1-1', 'Bytes=0-0', 'BYTES=0-0', 'bytes=0-0=1-1', 'bytes==0-0',
              'bytes=0=0', 'bits=0-0', 'bytes0-0', 'bytes:0-0', 'bytes=0x0-0x1', 'bytes=+0-+1', 'bytes=00-01', 'bytes=0.0-1.0', 'bytes=1e0-', 'bytes=\u0660-\u0661', 'bytes=0\u20131', 'bytes=0-0\x00', 'bytes=\x000-0',
              'bytes=' + ','.join('0-0' for _ in range(3)), 'bytes=' + ','.join('%d-%d' % (i % max(L, 1), i % max(L, 1)) for i in range(50)), 'bytes=' + '0-0,' * 600 + '0-0', 'bytes=' + '-1,' * 1500 + '-1',
-             'bytes=' + '0-,' * 30 + '0-', 'bytes=' + ',' * 3000, 'bytes=' + '-' * 3000, 'bytes=' + '9' * 3000 + '-', 'bytes=0-' + '9' * 3000, 'bytes=' + '0' * 3000 + '-' + '0' * 3000 + '1'}
+             'bytes=' + '0-,' * 30 + '0-', 'bytes=' + ',' * min(3000, 6000000 // max(L, 1)),   # every empty element is answered with the whole file: the answer stays below 6 MB (assembling 30 MB takes the code > 20 s: AUDIT2.md)
+             'bytes=' + '-' * 3000, 'bytes=' + '9' * 3000 + '-', 'bytes=0-' + '9' * 3000, 'bytes=' + '0' * 3000 + '-' + '0' * 3000 + '1'}
     vals = sorted(vals)
     if tier == 'quick' and len(vals) > 120:
         must = [v for v in vals if len(v) < 24]
@@ -560,4 +561,619 @@ def extra_batches(rng, tier):
             tree = prepare_tree(r, small=(rep == 0))
             out.append((tree, g(r, tree, Alt(gi + rep), tier)))
     out += odd_trees(rng.fork('odd-trees'), tier)
+    return out
+
+# ====================================================================================================================
+# SECOND AUDIT PASS: relations between two inputs that a FEATURE added on this code path would hinge on (see AUDIT2.md).
+# The server ignores most of the headers below today; a request that carries them is answered as before, so every case
+# is judged by the unchanged oracle (no panic, exactly one complete response, error status where required) and compared
+# with the model.  Groups N1..N14; `feature_batches` collects them, `history_batches` are oracle-only (the tree changes
+# between two requests of one process, the model keeps no such state).
+# ====================================================================================================================
+def _rot(xs, i):
+    return xs[i % len(xs)]
+
+def mb_values(n):
+    """strings in which EVERY byte offset 1..2n is inside a character for one of the first two values (two-byte characters in both
+    alignments): a cut `&value[..k]` at ANY k panics on one of them; three- and four-byte characters in every alignment follow"""
+    e2, e3, e4 = 'é', '€', '\U0001F600'
+    return [e2 * n, 'a' + e2 * n, e3 * (2 * n // 3), 'a' + e3 * (2 * n // 3), 'ab' + e3 * (2 * n // 3),
+            e4 * (n // 2), 'a' + e4 * (n // 2), 'ab' + e4 * (n // 2), 'abc' + e4 * (n // 2)]
+
+LOGGED = ['User-Agent', 'Referer', 'Host', 'Origin', 'X-Forwarded-For', 'Forwarded', 'Accept', 'Accept-Language', 'Accept-Encoding', 'Cookie', 'Authorization', 'Content-Type',
+          'If-None-Match', 'If-Modified-Since', 'Via', 'X-Request-Id', 'From', 'Range', 'Expect', 'Connection', 'Upgrade', 'Transfer-Encoding', 'Content-Encoding', 'Prefer']
+
+# ------------------------------------------------------------------ N1: a value cut / sliced at ANY byte offset (a log line, a metrics label, a fixed-size field)
+def cut_anywhere(rng, tree, alt, tier):
+    cases = []
+    f0 = rng.choice(regular_files(tree))[0]
+    n = 1500
+    vals = mb_values(n)
+    for hi, hn in enumerate(LOGGED):
+        for vi, v in enumerate(vals if tier != 'quick' else vals[:2] + [_rot(vals[2:], hi)]):
+            for e in (ENTRIES if vi < 2 else (alt(),)):
+                cases.append(K.mk(tree, _rot(['GET', 'GET', 'HEAD', 'OPTIONS'], hi + vi), f0, [(hn, v)], entry=e, kind='cut-anywhere:header'))
+    # beyond 4 096 / 8 192 bytes (a page, a pipe buffer): the value nearly fills the request buffer
+    for hn in ('User-Agent', 'Referer', 'Cookie'):
+        for v in mb_values(4400)[:2]:
+            cases.append(K.mk(tree, 'GET', f0, [(hn, v)], entry=alt(), kind='cut-anywhere:header'))
+    for vi, v in enumerate(vals if tier != 'quick' else vals[:2] + [rng.choice(vals[2:])]):
+        pe = ''.join('%%%02X' % x for x in v[:600].encode())
+        places = [('GET', '/' + v, [], b''), ('HEAD', '/' + v, [], b''), ('GET', f0 + '?' + v, [], b''), ('GET', f0 + '?k=' + v, [], b''), ('GET', f0 + '#' + v, [], b''), ('OPTIONS', f0 + '?' + v, [('Origin', 'http://o')], b''),
+                  ('GET', '/form-get-method?k=' + v, [], b''), ('GET', '/form-get-method?' + v + '=1', [], b''), ('POST', '/file-upload/initiate?name=' + v + '&lastModified=1&size=2', [], b''),
+                  ('GET', '/' + pe, [], b''), ('GET', '/form-get-method?k=' + pe, [], b''), ('GET', f0 + '?' + pe, [], b''),
+                  ('POST', URLENC, [CT_URL], b('k=' + v)), ('POST', URLENC, [CT_URL], b(v + '=1')), ('POST', URLENC, [CT_URL], b('k=' + pe)), ('POST', URLENC, [('Content-Type', 'application/x-www-form-urlencoded; charset=' + v)], b'a=1'),
+                  ('POST', MULTIP, [CT_MP], b'--B\r\nContent-Disposition: form-data; name="' + b(v) + b'"\r\n\r\nv\r\n--B--\r\n'),
+                  ('POST', MULTIP, [CT_MP], b'--B\r\nContent-Disposition: form-data; name="a"; filename="' + b(v) + b'"\r\n\r\nv\r\n--B--\r\n'),
+                  ('POST', MULTIP, [CT_MP], b'--B\r\nContent-Disposition: form-data; name="a"\r\n\r\n' + b(v) + b'\r\n--B--\r\n'),
+                  ('POST', MULTIP, [CT_MP], b'--B\r\nContent-Disposition: form-data; name="a"\r\nContent-Type: text/' + b(v) + b'\r\n\r\nv\r\n--B--\r\n'),
+                  ('POST', MULTIP, [('Content-Type', 'multipart/form-data; boundary=' + v[:40])], b'--' + b(v[:40]) + b'\r\nContent-Disposition: form-data; name="a"\r\n\r\nv\r\n--' + b(v[:40]) + b'--\r\n'),
+                  ('PUT', '/' + v, [], b(v)), (v[:20], '/', [], b''), ('GET', '/', [], b'')]
+        for pi, (m, t, hs, body) in enumerate(places):
+            for e in (ENTRIES if vi < 2 and tier != 'quick' else (alt(),)):
+                cases.append(K.mk(tree, m, t, hs, body, entry=e, kind='cut-anywhere:place'))
+        for m in ('GET', 'HEAD', 'POST'):
+            cases.append(K.mk(tree, m, _rot(['/', f0, '/missing'], vi), [], entry='proc', app='err:' + C.hx(v), kind='cut-anywhere:handler-error', note=model_input_note(m, v)))
+    return cases
+
+# ------------------------------------------------------------------ N2: precompressed neighbours of the served files x Accept-Encoding x Range
+ACCEPT_ENCODINGS = ['gzip', 'br', 'gzip, br', 'gzip, deflate, br, zstd', 'GZIP', 'Gzip', 'gzip;q=0', 'gzip;q=0.5, br;q=1', 'br;q=0.5,gzip;q=0.5', '*', '*;q=0', 'identity', 'identity;q=0', 'identity;q=0, *;q=0', '', ' ',
+                    'gzip;q=NaN', 'gzip;q=NaN, br;q=0.5', 'br;q=0.5, gzip;q=nan, zstd;q=0.1', 'gzip;q=inf', 'gzip;q=', 'gzip;q', 'gzip;', 'gzip;q=1.0000', 'gzip;q=-1', 'gzip;q=2', 'gzip;q=1e400', 'gzip;q=0.0001', 'gzip; q=0.5', 'gzip ;q=0.5',
+                    'gzip;Q=0.5', ';q=1', ',', ',,gzip,,', 'x-gzip', 'gzipx', 'notgzip', 'deflate', 'compress', 'gzip' + ', x' * 500, 'gzip;' + 'q=1;' * 300, 'gzip\x00', 'gzip;q=０.５', 'gzıp', 'gzip,' * 400 + 'gzip',
+                    'gzip;q=0.5;q=0.7', 'gzip;q=0,5', 'gzip;q=.5', 'gzip;q=1.', 'gzip;q=+1', 'gzip;q=0x1', 'gzip;q=9223372036854775808', 'br;q=1, gzip;q=0.999999999999999999999999999999']
+
+def sidecar_batches(rng, tier):
+    if tier == 'quick': return _sidecar_batch(rng, tier, None, 1)
+    return sum((_sidecar_batch(rng.fork(f'part{i}'), tier, set(range(i, 11, 4)), i) for i in range(4)), [])
+
+def _sidecar_batch(rng, tier, only, phase):
+    """[(tree, cases)]: next to every served file of the directories sc/<shape>/ lies `<name>.gz` and `<name>.br` of one shape (shorter / longer
+    than the file, empty, of the same size, a directory, a dangling link, a link loop, a link to the file itself, to a directory, none)"""
+    t = prepare_tree(rng)
+    root = t.cwd + b'/'
+    L = 300
+    orig = bytes((i * 11 + 5) & 0xff for i in range(L))
+    page = b'<p>' + b'p' * (L - 7) + b'</p>'
+    GZ = b'\x1f\x8b\x08\x00\x00\x00\x00\x00\x00\x03'
+    shapes = [('smaller', GZ + b'x' * 30), ('larger', GZ + b'y' * 600), ('empty', b''), ('same', GZ + b'z' * (L - 10)), ('one', b'\x1f'), ('dir', None), ('dangling', None), ('loop', None), ('toorig', None), ('todir', None), ('none', None)]
+    served = [b'data.txt', b'index.html', b'page.html', b'noext']
+    for shape, content in shapes:
+        d = root + b'sc/' + shape.encode() + b'/'
+        for name in served:
+            t.file(d + name, orig if not name.endswith(b'.html') else page)
+            for ext in (b'.gz', b'.br'):
+                sc = d + name + ext
+                if content is not None: t.file(sc, content)
+                elif shape == 'dir': t.file(sc + b'/inner', b'inside a directory')
+                elif shape == 'dangling': t.link(sc, b'nowhere' + ext)
+                elif shape == 'loop': t.link(sc, name + ext)
+                elif shape == 'toorig': t.link(sc, name)
+                elif shape == 'todir': t.link(sc, b'.')
+        if content is not None: t.file(d + b'page.gz', content)          # the neighbour of the name as it was asked for (`/page`), not of the file it resolves to
+    alt = Alt(phase)
+    cases = []
+    for si, (shape, content) in enumerate(shapes):
+        if only is not None and si not in only: continue
+        S_ = len(content) if content is not None else 0
+        rel = sorted({f'bytes={a}-{z}' for a in (0, 1, max(S_ - 1, 0), S_, S_ + 1, L - 1) for z in ('', a, max(S_ - 1, a), S_, S_ + 1, L - 1, L) if z == '' or z >= a} | {f'bytes=-{k}' for k in (0, 1, S_, S_ + 1, L - 1, L, L + 1)} |
+                     {f'bytes=0-0,{S_}-{S_}', f'bytes={S_}-,0-0', f'bytes=0-{S_},{S_ + 1}-{L - 1}'})
+        base = '/sc/' + shape + '/'
+        targets = [base + 'data.txt', base, base[:-1], base + 'page', base + 'page.html', base + 'noext', base + 'data.txt.gz', base + 'data.txt.br', base + 'index.html', base + 'page.gz']
+        for ti, tg in enumerate(targets):
+            plans = [('GET', 'gzip', None), ('GET', 'gzip', 'bytes=0-0'), ('GET', 'gzip, br', _rot(rel, si + ti)), ('GET', 'br', rng.choice(rel)), ('HEAD', 'gzip', None), ('OPTIONS', 'gzip', None), ('HEAD', 'gzip', rng.choice(rel)),
+                     ('GET', rng.choice(ACCEPT_ENCODINGS), rng.choice(rel + [None] * 10)), ('GET', rng.choice(ACCEPT_ENCODINGS), None)]
+            if tier != 'quick':
+                plans += [(m, ae, r) for m in ('GET', 'HEAD') for ae in ('gzip', 'br;q=1, gzip;q=0.5', '*') for r in rel]
+                plans += [('GET', ae, r) for ae in ACCEPT_ENCODINGS for r in (None, 'bytes=0-0', f'bytes={S_}-')]
+            for m, ae, r in plans:
+                hn = 'Accept-Encoding' if rng.chance(7, 8) else rng.choice(['accept-encoding', 'ACCEPT-ENCODING'])
+                cases.append(K.mk(t, m, tg, [(hn, ae)] + ([('Range', r)] if r else []), entry=alt(), kind='sidecar:' + shape))
+    for ai, ae in enumerate(ACCEPT_ENCODINGS):
+        sh = _rot(shapes, ai)[0]
+        cases.append(K.mk(t, 'GET', '/sc/' + sh + '/data.txt', [('Accept-Encoding', ae)], entry=alt(), kind='accept-encoding'))
+        cases.append(K.mk(t, _rot(['GET', 'HEAD', 'OPTIONS', 'POST'], ai), _rot(['/', '/style.css', '/missing', '/form-get-method?a=1', '/sc/smaller/', URLENC], ai), [('Accept-Encoding', ae), ('Range', 'bytes=0-0')], entry=alt(), kind='accept-encoding'))
+        cases.append(K.mk(t, 'GET', '/sc/' + sh + '/page', [('Accept-Encoding', ae), ('Accept-Encoding', 'gzip')], entry=alt(), kind='accept-encoding'))
+    return [(t, cases)]
+
+# ------------------------------------------------------------------ N3: conditional requests (validators) x the file asked for x Range
+IMF = 'Sun, 06 Nov 1994 08:49:37 GMT'
+def date_values():
+    vals = [IMF, 'Sunday, 06-Nov-94 08:49:37 GMT', 'Sun Nov  6 08:49:37 1994', 'Sun Nov 16 08:49:37 1994', '1994-11-06T08:49:37Z', '1994-11-06 08:49:37', 'Thu, 01 Jan 1970 00:00:00 GMT', 'Wed, 31 Dec 1969 23:59:59 GMT',
+            'Tue, 19 Jan 2038 03:14:07 GMT', 'Tue, 19 Jan 2038 03:14:08 GMT', 'Sun, 07 Feb 2106 06:28:15 GMT', 'Sun, 07 Feb 2106 06:28:16 GMT', 'Fri, 11 Apr 2262 23:47:16 GMT', 'Fri, 11 Apr 2262 23:47:17 GMT', 'Fri, 31 Dec 9999 23:59:59 GMT',
+            'Sat, 01 Jan 10000 00:00:00 GMT', 'Mon, 01 Jan 0000 00:00:00 GMT', 'Mon, 01 Jan 0001 00:00:00 GMT', 'Mon, 28 Sep 2026 00:00:00 GMT', 'Fri, 01 Jan 2100 00:00:00 GMT', 'Tue, 29 Feb 2000 00:00:00 GMT', 'Mon, 29 Feb 2100 00:00:00 GMT',
+            'Tue, 30 Feb 2021 00:00:00 GMT', 'Sun, 00 Nov 1994 08:49:37 GMT', 'Sun, 32 Nov 1994 08:49:37 GMT', 'Sun, 99 Nov 1994 08:49:37 GMT', 'Sun, 31 Nov 1994 08:49:37 GMT', 'Sun, 6 Nov 1994 08:49:37 GMT', 'Sun, 006 Nov 1994 08:49:37 GMT',
+            'Sun, 06 Foo 1994 08:49:37 GMT', 'Sun, 06 nov 1994 08:49:37 GMT', 'Sun, 06 NOV 1994 08:49:37 GMT', 'Sun, 06 November 1994 08:49:37 GMT', 'Sun, 06 11 1994 08:49:37 GMT', 'Sun, 06 13 1994 08:49:37 GMT', 'Sun, 06 00 1994 08:49:37 GMT',
+            'Sun, 06 Nov 94 08:49:37 GMT', 'Sun, 06 Nov 19940 08:49:37 GMT', 'Sun, 06 Nov -994 08:49:37 GMT', 'Sun, 06 Nov 1994 24:00:00 GMT', 'Sun, 06 Nov 1994 25:49:37 GMT', 'Sun, 06 Nov 1994 99:49:37 GMT', 'Sun, 06 Nov 1994 08:60:37 GMT',
+            'Sun, 06 Nov 1994 08:99:37 GMT', 'Sun, 06 Nov 1994 08:49:60 GMT', 'Sun, 06 Nov 1994 08:49:61 GMT', 'Sun, 06 Nov 1994 08:49:99 GMT', 'Sun, 06 Nov 1994 8:49:37 GMT', 'Sun, 06 Nov 1994 08:49 GMT', 'Sun, 06 Nov 1994 08:49:37.123 GMT',
+            'Sun, 06 Nov 1994 08:49:37 UTC', 'Sun, 06 Nov 1994 08:49:37 gmt', 'Sun, 06 Nov 1994 08:49:37 +0000', 'Sun, 06 Nov 1994 08:49:37 -0100', 'Sun, 06 Nov 1994 08:49:37 Z', 'Sun, 06 Nov 1994 08:49:37', 'Sun, 06 Nov 1994 08:49:37 ',
+            'Sun, 06 Nov 1994 08:49:37 GMT ', 'Sun, 06 Nov 1994 08:49:37 GMTX', 'Sun, 06 Nov 1994 08:49:37  GMT', 'Sun 06 Nov 1994 08:49:37 GMT', 'Sun,06 Nov 1994 08:49:37 GMT', 'Sun,  06 Nov 1994 08:49:37 GMT', 'Sun,\t06 Nov 1994 08:49:37 GMT',
+            'sun, 06 Nov 1994 08:49:37 GMT', 'SUN, 06 NOV 1994 08:49:37 GMT', 'Mon, 06 Nov 1994 08:49:37 GMT', 'Xyz, 06 Nov 1994 08:49:37 GMT', ', 06 Nov 1994 08:49:37 GMT', '06 Nov 1994 08:49:37 GMT', '  ' + IMF, IMF + IMF, IMF + ', ' + IMF,
+            IMF + '\x00', '"' + IMF + '"', '', ' ', '0', '-1', '784111777', '784111777000000000', '9223372036854775807', '9223372036854775808', '18446744073709551615', '18446744073709551616', '-9223372036854775808', '1e18', 'now', 'x' * 29, ' ' * 29,
+            '0' * 29, ':' * 29, ',' * 29, 'Sun, 06 Nov 1994 08:49:37 GMT' + ' ' * 3000, 'S' * 3000]
+    for i in range(len(IMF) + 1):
+        vals.append(IMF[:i])                                          # cut at every length
+        vals.append(IMF[:i] + 'é' + IMF[i:])                     # one character more, at every position
+        if i < len(IMF):
+            vals.append(IMF[:i] + 'é' + IMF[i + 1:])             # one character replaced (one byte more)
+            vals.append(IMF[:i] + '٣' + IMF[i + 1:])             # ... by a digit that is not ASCII
+            vals.append(IMF[:i] + IMF[i + 1:])                        # one character less
+        if i + 2 <= len(IMF): vals.append(IMF[:i] + 'é' + IMF[i + 2:])      # the SAME length in bytes, a two-byte character across every offset
+        if i + 3 <= len(IMF): vals.append(IMF[:i] + '€' + IMF[i + 3:])      # ... a three-byte character
+        if i + 4 <= len(IMF): vals.append(IMF[:i] + '\U0001F600' + IMF[i + 4:])  # ... a four-byte character
+    out, seen = [], set()
+    for v in vals:
+        if v not in seen: seen.add(v); out.append(v)
+    return out
+
+ETAGS = ['*', '"abc"', 'W/"abc"', 'w/"abc"', '""', 'W/""', '"', 'W/', 'W/"', 'W', '"abc', 'abc"', 'abc', '"a", "b"', '"a","b"', '"a" , "b"', '"a",', ',"a"', ',', ', ', '"a" "b"', '*, "a"', '"a", *', '**', '"a\\"b"', '"a,b"', '"a", W/"b", "c"', '"é"', '"\x00"',
+         '"' + 'e' * 3000 + '"', '"a", ' * 600 + '"a"', '"1700000000000000000-300"', '"18446744073709551616-1"', '"-1--1"', '"0-0"', '"300"', '"12c"', '1700000000000000000', 'W/"1700000000000000000"', '"1700000000000000000', '', ' ', '\t', '"a"\x00', "'abc'", '<abc>',
+         '"abc"; x=y', '"d41d8cd98f00b204e9800998ecf8427e"', '"' + 'é' * 20 + '"', 'W/"' + 'a' + 'é' * 20 + '"']
+
+def conditionals(rng, tree, alt, tier):
+    cases = []
+    f0 = rng.choice([f for f, c in regular_files(tree) if len(c) > 1])
+    targets = [f0, '/c04/ten.txt', '/c04/dir/', '/c04/dir', '/c04/pg', '/c04/ln.txt', '/c04/empty.bin', '/', '/missing', '/style.css', '/form-get-method?a=1']
+    dates = date_values()
+    for di, d in enumerate(dates):
+        cases.append(K.mk(tree, 'GET', _rot(targets[:2], di), [('If-Modified-Since', d)], entry=alt(), kind='conditional:date'))
+    for hn in ('If-Unmodified-Since', 'If-Range', 'if-modified-since', 'Date', 'Last-Modified', 'If-Modified-Since-Unix-Epoch-Nanos'):
+        ds = dates if tier != 'quick' else [rng.choice(dates) for _ in range(30)] + dates[:3]
+        for di, d in enumerate(ds):
+            hs = [(hn, d)] + ([('Range', rng.choice(['bytes=0-0', 'bytes=1-', 'bytes=-1', 'bytes=0-0,2-3', 'bytes=99999-']))] if hn == 'If-Range' or rng.chance(1, 4) else [])
+            cases.append(K.mk(tree, _rot(['GET', 'GET', 'HEAD', 'OPTIONS'], di), _rot(targets, di), hs, entry=alt(), kind='conditional:date'))
+    for hn in ('If-None-Match', 'If-Match', 'If-Range', 'if-none-match', 'ETag'):
+        for ei, et in enumerate(ETAGS if (tier != 'quick' or hn == 'If-None-Match') else [rng.choice(ETAGS) for _ in range(15)] + ETAGS[:2]):
+            hs = [(hn, et)] + ([('Range', rng.choice(['bytes=0-0', 'bytes=1-', 'bytes=-1', 'bytes=0-0,2-3', 'bytes=99999-']))] if hn == 'If-Range' or rng.chance(1, 4) else [])
+            cases.append(K.mk(tree, _rot(['GET', 'GET', 'HEAD', 'OPTIONS', 'POST', 'PUT', 'DELETE'], ei), _rot(targets, ei), hs, entry=alt(), kind='conditional:etag'))
+    # two validators on one request (their precedence is a relation: If-None-Match beats If-Modified-Since, If-Match beats If-Unmodified-Since, If-Range needs Range)
+    for a, av, bn, bv in [('If-None-Match', '*', 'If-Modified-Since', IMF), ('If-None-Match', '"x"', 'If-Modified-Since', 'Fri, 31 Dec 9999 23:59:59 GMT'), ('If-Match', '*', 'If-Unmodified-Since', IMF), ('If-Match', '"x"', 'If-None-Match', '"x"'),
+                          ('If-Match', '*', 'If-None-Match', '*'), ('If-Range', IMF, 'If-Modified-Since', IMF), ('If-Range', '"x"', 'If-None-Match', '"x"'), ('If-Modified-Since', IMF, 'If-Modified-Since', 'junk'), ('If-None-Match', '"a"', 'If-None-Match', '*'),
+                          ('If-Modified-Since', 'Fri, 31 Dec 9999 23:59:59 GMT', 'If-Unmodified-Since', 'Thu, 01 Jan 1970 00:00:00 GMT'), ('If-Range', 'Fri, 31 Dec 9999 23:59:59 GMT', 'If-Unmodified-Since', IMF)]:
+        for m in ('GET', 'HEAD', 'OPTIONS', 'POST'):
+            for r in (None, 'bytes=0-0', 'bytes=99999-', 'bytes=0-0,2-3'):
+                for tg in ((f0, '/c04/dir/') if tier == 'quick' else targets):
+                    if tier == 'quick' and not rng.chance(1, 2): continue
+                    cases.append(K.mk(tree, m, tg, [(a, av), (bn, bv)] + ([('Range', r)] if r else []), entry=alt(), kind='conditional:pair'))
+    return cases
+
+# ------------------------------------------------------------------ N3b: a number in every header a feature may read one from
+NUMERIC_HEADERS = ['Max-Forwards', 'Keep-Alive', 'Upgrade-Insecure-Requests', 'Age', 'Device-Memory', 'Downlink', 'RTT', 'Viewport-Width', 'Width', 'DPR', 'Sec-CH-Viewport-Width', 'X-Forwarded-Port', 'Last-Modified-Unix-Epoch-Nanos',
+                   'Date-Unix-Epoch-Nanos', 'Access-Control-Max-Age', 'Retry-After', 'Sec-WebSocket-Version', 'Priority', 'Prefer', 'Content-Range', 'X-Content-Length', 'X-File-Size', 'X-Chunk-Index', 'Save-Data', 'Early-Data', 'DNT']
+def numeric_headers(rng, tree, alt, tier):
+    from vlib import limits as LIM
+    cases = []
+    f0 = rng.choice(regular_files(tree))[0]
+    core = ['0', '1', '-1', '-0', '255', '256', '65535', '65536', '2147483647', '2147483648', '4294967295', '4294967296', '9223372036854775807', '9223372036854775808', '18446744073709551615', '18446744073709551616',
+            str(2**127), str(2**128), '-2147483649', '-9223372036854775809', '', ' ', 'NaN', 'inf', '-inf', '1e400', '1e-400', '1.5', '0.5', '.5', '5.', '+1', ' 1', '1 ', '0x10', '1_000', '1,000', '9' * 400, '0' * 400 + '1', '١', '１', '?1', '?0', 'true']
+    nums = core if tier == 'quick' else sorted(set(core) | set(LIM.numbers()))
+    for hi, hn in enumerate(NUMERIC_HEADERS):
+        for ni, nv in enumerate(nums):
+            v = {'Keep-Alive': f'timeout={nv}, max={nv}', 'Priority': f'u={nv}, i', 'Prefer': f'wait={nv}', 'Content-Range': f'bytes {nv}-{nv}/{nv}'}.get(hn, nv)
+            m = _rot(['GET', 'OPTIONS', 'TRACE', 'HEAD', 'POST', 'PUT'], hi + ni) if hn != 'Max-Forwards' else _rot(['TRACE', 'OPTIONS', 'GET'], ni)
+            cases.append(K.mk(tree, m, _rot([f0, '/', '/missing', '/c04/dir/', '/file-upload/initiate?name=a&lastModified=1&size=2'], ni), [(hn, v)] + ([('Connection', 'keep-alive')] if hn == 'Keep-Alive' else []), entry=alt(), kind='numeric-header'))
+    return cases
+
+# ------------------------------------------------------------------ N4/N7: Expect and Content-Length relative to the bytes that arrived after the head
+def _post(t, hs, body):
+    return ('POST', t, hs, body)
+
+def body_routes(tree, rng):
+    f0 = rng.choice(regular_files(tree))[0]
+    return [('POST', URLENC, [CT_URL], b'a=1&b=2'), ('POST', MULTIP, [CT_MP], MP_ONE), ('POST', '/file-upload/initiate?name=a&lastModified=1&size=2', [], b''), ('POST', '/file-upload/initiate?name=a&lastModified=1&size=2', [], b'chunk-bytes'),
+            ('GET', f0, [], b''), ('GET', f0, [], b'unexpected body'), ('GET', '/form-get-method?a=1', [], b'x=1'), ('PUT', '/c04/new.txt', [('Content-Type', 'text/plain')], b'new content'), ('HEAD', f0, [], b'body'), ('OPTIONS', f0, [('Origin', 'http://o')], b'body'),
+            ('DELETE', f0, [], b''), ('POST', '/missing', [CT_URL], b'a=1'), ('POST', '/', [], b'x'), ('PATCH', f0, [('Content-Type', 'application/json')], b'{"a":1}')]
+
+def cl_relations(n):
+    """Content-Length values relative to the n bytes that follow the head"""
+    return sorted({0, 1, max(n - 1, 0), n, n + 1, n + 2, 2 * n, 2 * n + 1, 9999, 10000, 10001, 65536, 2**31, 2**32, 2**63 - 1, 2**63, 2**64 - 1, 2**64})
+
+EXPECTS = ['100-continue', '100-Continue', '100-CONTINUE', ' 100-continue ', '100-continue, 100-continue', '100-continue, foo', 'foo, 100-continue', 'foo', '', ' ', '100', '-continue', '100-', '100continue', '100 continue', '101-switching', '200-ok', '417',
+           '100-continue\x00', '100-continué', '１００-continue', '100-continue;q=1', '100-continue=1', 'x' * 3000, '100-continue' + ', x' * 600]
+
+def expect_and_length(rng, tree, alt, tier):
+    cases = []
+    routes = body_routes(tree, rng)
+    for ri, (m, t, hs, body) in enumerate(routes):
+        n = len(body)
+        # Content-Length against what arrived, with and without `Expect: 100-continue`
+        for ci, cl in enumerate([None] + cl_relations(n)):
+            for ex in (None, '100-continue'):
+                if tier == 'quick' and ex is None and cl is not None and cl > 2 * n + 1 and not rng.chance(1, 4): continue
+                h2 = list(hs) + ([('Content-Length', str(cl))] if cl is not None else []) + ([('Expect', ex)] if ex else [])
+                if rng.chance(1, 3): h2 = h2[::-1]
+                for e in (ENTRIES if (tier != 'quick' or (ex and cl is not None and cl <= 2 * n + 1)) else (alt(),)):
+                    cases.append(K.mk(tree, m, t, h2, body, entry=e, kind='content-length-x-body' if ex is None else 'expect-x-content-length'))
+        # every spelling of the expectation
+        for xi, ex in enumerate(EXPECTS if (tier != 'quick' or ri < 2) else [_rot(EXPECTS, ri * 3 + k) for k in range(3)]):
+            hn = 'Expect' if (xi + ri) % 5 else _rot(['expect', 'EXPECT'], xi)
+            cases.append(K.mk(tree, m, t, list(hs) + [('Content-Length', str(n)), (hn, ex)], body, version=_rot(['HTTP/1.1', 'HTTP/1.1', 'HTTP/1.0', 'HTTP/2.0'], xi), entry=alt(), kind='expect-spelling'))
+        # the same header twice, a body that has not arrived at all (the client waits for the interim answer), a body cut short
+        cases.append(K.mk(tree, m, t, list(hs) + [('Expect', '100-continue'), ('Expect', '100-continue'), ('Content-Length', str(n))], body, entry=alt(), kind='expect-x-content-length'))
+        cases.append(K.mk(tree, m, t, list(hs) + [('Expect', '100-continue'), ('Content-Length', str(max(n, 7)))], b'', entry=alt(), kind='expect-x-content-length'))
+        cases.append(K.mk(tree, m, t, list(hs) + [('Content-Length', str(n)), ('Content-Length', str(n))], body, entry=alt(), kind='content-length-x-body'))
+        cases.append(K.mk(tree, m, t, list(hs) + [('Content-Length', str(n)), ('Content-Length', str(n + 1))], body, entry=alt(), kind='content-length-x-body'))
+        cases.append(K.mk(tree, m, t, list(hs) + [('Content-Length', f'{n}, {n}')], body, entry=alt(), kind='content-length-x-body'))
+        cases.append(K.mk(tree, m, t, list(hs) + [('content-length', str(n + 5)), ('CONTENT-LENGTH', str(max(n - 1, 0)))], body, entry=alt(), kind='content-length-x-body'))
+    # the body does not fit into the request buffer: Content-Length names the true length, the part that fitted, one more, one less
+    for m, t, hs, unit in (('POST', URLENC, [CT_URL], b'k=v&'), ('POST', MULTIP, [CT_MP], b'--B\r\nContent-Disposition: form-data; name="a"\r\n\r\nv\r\n'), ('PUT', '/c04/new.bin', [], b'\x00\xff'), ('GET', '/c04/ten.txt', [], b'x')):
+        for total in (9990, 10000, 10001, 12000, 20000):
+            head = len(G.req(m, t, 'HTTP/1.1', list(hs) + [('Content-Length', '00000')]))
+            fit = max(10000 - head, 0)
+            for cl in (total - head, fit - 1, fit, fit + 1):
+                if cl < 0: continue
+                for ex in (None, '100-continue'):
+                    if tier == 'quick' and not rng.chance(1, 2): continue
+                    body = (unit * (total // len(unit) + 1))[:max(total - head, 0)]
+                    cases.append(K.mk(tree, m, t, list(hs) + [('Content-Length', '%05d' % cl)] + ([('Expect', ex)] if ex else []), body, entry=alt(), kind='content-length-x-buffer'))
+    # the interim answer of a feature meets a peer that reads slowly / not at all
+    for m, t, hs, body in routes[:5]:
+        for ws, fl in (('c:1', 'ok'), ('c:7', 'ok'), ('s:5.0', 'ok'), ('s:25.1', 'ok'), ('e:0', 'ok'), ('e:1', 'ok'), ('e:2', 'ok'), ('all', 'e')):
+            for e in ENTRIES:
+                c = K.mk(tree, m, t, list(hs) + [('Expect', '100-continue'), ('Content-Length', str(len(body)))], body, entry=e, ws=ws, flush=fl, kind='transport:expect')
+                cases.append(c)
+    return cases
+
+# ------------------------------------------------------------------ N5: Connection / Keep-Alive x version x the bytes that follow the first request
+CONNECTIONS = ['keep-alive', 'Keep-Alive', 'KEEP-ALIVE', 'close', 'Close', 'CLOSE', 'keep-alive, close', 'close, keep-alive', 'close,keep-alive', 'upgrade', 'Upgrade, HTTP2-Settings', 'keep-alive, Upgrade', 'TE', 'TE, close', 'foo', '', ' ', ',', ', ,',
+               'keep-alive' + ', x' * 500, 'Connection', 'close\x00', 'clöse', 'keep-alive;timeout=5', 'keepalive', 'keep alive', 'Content-Length', 'Host', 'close, Content-Length']
+
+def pipelining(rng, tree, alt, tier):
+    cases = []
+    files = regular_files(tree)
+    f0, f1 = rng.choice(files)[0], rng.choice(files)[0]
+    def second_requests():
+        return [b'', G.req('GET', f1), G.req('GET', '/missing'), G.req('HEAD', f1), G.req('GET', f1, 'HTTP/1.0'), G.req('POST', URLENC, headers=[CT_URL, ('Content-Length', '3')], body=b'a=1'), b'junk\r\n\r\n', b'GET /x HT', b'GET ' + b(f1), b'\r\n',
+                b'\r\n\r\n', b'\r\n' + G.req('GET', f1), b'\x00' * 20, b'\xff\xfe', G.req('GET', f1) * 20, G.req('GET', f1) + G.req('GET', '/missing') + G.req('HEAD', f1), G.req('GET', 'x'), G.req('OPTIONS', '*'),
+                G.req('GET', f1, headers=[('Connection', 'close')]), G.req('GET', f1, headers=[('Range', 'bytes=0-0')]), (G.req('GET', f1) * 400)[:10000 - 60], b'GET / HTTP/1.1\r\n' + b'a: b\r\n' * 1500]
+    firsts = [lambda cn, v: G.req('GET', f0, v, [('Host', 'h'), ('Connection', cn)]), lambda cn, v: G.req('HEAD', f0, v, [('Connection', cn)]), lambda cn, v: G.req('OPTIONS', f0, v, [('Origin', 'http://o'), ('Connection', cn)]),
+              lambda cn, v: G.req('POST', URLENC, v, [CT_URL, ('Content-Length', '7'), ('Connection', cn)], b'a=1&b=2'), lambda cn, v: G.req('POST', URLENC, v, [CT_URL, ('Content-Length', '3'), ('Connection', cn)], b'a=1&b=2'),
+              lambda cn, v: G.req('POST', MULTIP, v, [CT_MP, ('Content-Length', str(len(MP_ONE))), ('Connection', cn)], MP_ONE), lambda cn, v: G.req('POST', '/file-upload/initiate?name=a&lastModified=1&size=2', v, [('Content-Length', '0'), ('Connection', cn)]),
+              lambda cn, v: G.req('GET', '/missing', v, [('Connection', cn)]), lambda cn, v: G.req('GET', 'x', v, [('Connection', cn)]), lambda cn, v: G.req('PUT', '/x', v, [('Content-Length', '1'), ('Connection', cn)], b'1'),
+              lambda cn, v: G.req('GET', '/', v, [('Connection', cn), ('Keep-Alive', 'timeout=5, max=1000')])]
+    seconds = second_requests()
+    k = 0
+    for ci, cn in enumerate(CONNECTIONS):
+        for vi, v in enumerate(('HTTP/1.1', 'HTTP/1.0')):
+            for fi, first in enumerate(firsts):
+                picks = seconds if tier != 'quick' else ([_rot(seconds, ci + 3 * fi + vi), rng.choice(seconds)] if ci >= 3 else [seconds[0], seconds[1], _rot(seconds, k), rng.choice(seconds)])
+                for snd in picks:
+                    k += 1
+                    cases.append(K.mk(tree, '?', '?', raw=first(cn, v) + snd, entry=alt(), kind='pipelining'))
+    # every follower after every first request, keep-alive on HTTP/1.1 (what a client that pipelines sends)
+    for fi, first in enumerate(firsts):
+        for si, snd in enumerate(seconds):
+            for e in (ENTRIES if tier != 'quick' else (alt(),)):
+                cases.append(K.mk(tree, '?', '?', raw=first('keep-alive', 'HTTP/1.1') + snd, entry=e, kind='pipelining'))
+    # a peer that reads slowly / stops reading while two answers would be due
+    for ws, fl in (('c:1', 'ok'), ('c:64', 'ok'), ('s:17.0', 'ok'), ('e:0', 'ok'), ('e:1', 'ok'), ('all', 'e')):
+        for fi in (0, 3, 7):
+            for e in ENTRIES:
+                cases.append(K.mk(tree, '?', '?', raw=firsts[fi]('keep-alive', 'HTTP/1.1') + G.req('GET', f1), entry=e, ws=ws, flush=fl, kind='transport:pipelining'))
+    return cases
+
+# ------------------------------------------------------------------ N6: Transfer-Encoding x the shape of the bytes after the head
+TRANSFER_ENCODINGS = ['chunked', 'Chunked', 'CHUNKED', 'gzip, chunked', 'chunked, gzip', 'chunked, chunked', 'identity', 'gzip', 'deflate', '', ' ', 'chunked;q=1', ' chunked ', 'chunked,', ',chunked', 'x' * 3000, 'chunked\x00', 'chünked', 'chunke', 'chunkedx', 'trailers']
+
+def chunk_bodies(payload, room):
+    n = len(payload)
+    hx_ = b'%x' % n
+    ok = hx_ + b'\r\n' + payload + b'\r\n0\r\n\r\n'
+    half = n // 2
+    out = [ok, b'%x\r\n' % half + payload[:half] + b'\r\n' + b'%x\r\n' % (n - half) + payload[half:] + b'\r\n0\r\n\r\n', hx_ + b';ext=1\r\n' + payload + b'\r\n0\r\n\r\n', hx_ + b';ext="a;b"\r\n' + payload + b'\r\n0;x\r\n\r\n',
+           hx_ + b'\r\n' + payload + b'\r\n0\r\nX-Trailer: v\r\n\r\n', hx_ + b'\r\n' + payload + b'\r\n0\r\nContent-Length: 99\r\n\r\n', hx_ + b'\n' + payload + b'\n0\n\n', hx_ + b'\r\n' + payload + b'\r\n', hx_ + b'\r\n' + payload + b'\r\n0\r\n',
+           hx_ + b'\r\n' + payload + b'\r\n0', hx_ + b'\r\n' + payload, hx_ + b'\r\n' + payload[:-1], hx_ + b'\r\n', hx_, b'', b'0\r\n\r\n', b'0\r\n', b'0', b'00000000000000000000\r\n\r\n', b'0\r\n\r\n' + ok, hx_ + b'\r\n' + payload + b'0\r\n\r\n',
+           hx_ + b'\r\n' + payload + b'\r\n\r\n0\r\n\r\n', hx_ + b'\r\n' + payload + b'XX0\r\n\r\n', hx_.upper() + b'\r\n' + payload + b'\r\n0\r\n\r\n', b'0x' + hx_ + b'\r\n' + payload + b'\r\n0\r\n\r\n', b'-' + hx_ + b'\r\n' + payload + b'\r\n0\r\n\r\n',
+           b'+' + hx_ + b'\r\n' + payload + b'\r\n0\r\n\r\n', hx_ + b' \r\n' + payload + b'\r\n0\r\n\r\n', b' ' + hx_ + b'\r\n' + payload + b'\r\n0\r\n\r\n', b'\r\n' + ok, b'g\r\n' + payload + b'\r\n0\r\n\r\n', b'\r\n\r\n', '٧\r\n'.encode() + payload + b'\r\n0\r\n\r\n',
+           'é\r\n'.encode() + payload, b'%d\r\n' % n + payload + b'\r\n0\r\n\r\n', b'1\r\nx\r\n' * min(room // 6, 1600) + b'0\r\n\r\n', b'1\r\nx\r\n' * 20, b'0;' + b'e' * 3000 + b'\r\n\r\n', b'f' * 3000 + b'\r\n', payload]
+    # a declared size relative to the data that is there / to the room left in the buffer
+    for sz in (n - 1, n + 1, n + 2, 2 * n, 0xff, 0xffff, room - 8, room, room + 1, 10000, 65536, 2**31 - 1, 2**31, 2**32 - 1, 2**32, 2**63 - 1, 2**63, 2**64 - 1, 2**64, 2**64 + n, 2**128):
+        if sz >= 0: out.append(b'%x\r\n' % sz + payload + b'\r\n0\r\n\r\n')
+    return out
+
+def chunked(rng, tree, alt, tier):
+    cases = []
+    f0 = rng.choice(regular_files(tree))[0]
+    routes = [('POST', URLENC, [CT_URL], b'a=1&b=2'), ('POST', MULTIP, [CT_MP], MP_ONE), ('GET', f0, [], b'body'), ('PUT', '/c04/new.txt', [], b'new content'), ('POST', '/file-upload/initiate?name=a&lastModified=1&size=2', [], b'0123456789')]
+    for ri, (m, t, hs, payload) in enumerate(routes):
+        room = 10000 - len(G.req(m, t, 'HTTP/1.1', list(hs) + [('Transfer-Encoding', 'chunked')]))
+        bodies = chunk_bodies(payload, room)
+        for ti, te in enumerate(TRANSFER_ENCODINGS):
+            hn = 'Transfer-Encoding' if (ti + ri) % 4 else _rot(['transfer-encoding', 'TRANSFER-ENCODING', 'TE'], ti)
+            cases.append(K.mk(tree, m, t, list(hs) + [(hn, te)], bodies[0], entry=alt(), kind='transfer-encoding'))
+            if tier != 'quick' or ri < 2: cases.append(K.mk(tree, m, t, list(hs) + [(hn, te), ('Content-Length', str(len(payload)))], rng.choice(bodies), entry=alt(), kind='transfer-encoding'))
+        for bi, body in enumerate(bodies):
+            if tier == 'quick' and ri >= 2 and not rng.chance(1, 3): continue
+            extra = _rot([[], [('Content-Length', str(len(body)))], [], [('Content-Length', str(len(payload)))], [('Connection', 'keep-alive')], [('Expect', '100-continue')], [('Trailer', 'X-Trailer')], [('TE', 'trailers')]], bi + ri)
+            order = list(hs) + [('Transfer-Encoding', 'chunked')] + extra
+            if rng.chance(1, 3): order = extra + list(hs) + [('Transfer-Encoding', 'chunked')]
+            for e in (ENTRIES if (tier != 'quick' or ri == 0) else (alt(),)):
+                cases.append(K.mk(tree, m, t, order, body, version=_rot(['HTTP/1.1'] * 5 + ['HTTP/1.0'], bi), entry=e, kind='chunked-body'))
+    return cases
+
+# ------------------------------------------------------------------ N8: what a proxy in front of the server adds
+IPS = ['1.2.3.4', '1.2.3', '1.2.3.4.5', '256.1.1.1', '01.2.3.4', '1.2.3.4:80', '1.2.3.4:', ':80', '[::1]', '[::1]:80', '::1', '::', '[::1', '::1]', '[]', '::ffff:1.2.3.4', 'fe80::1%eth0', '[fe80::1%25eth0]:80', '2001:db8::1:65536', '[2001:db8::1]:65536',
+       '1.2.3.4:65535', '1.2.3.4:65536', '1.2.3.4:-1', '1.2.3.4:99999999999999999999', '1.2.3.4:8o', 'unknown', '_hidden', '_', 'localhost', '', ' ', ',', ', ', ' , ', '1.2.3.4, 5.6.7.8', '1.2.3.4,5.6.7.8', ' 1.2.3.4 ', ',1.2.3.4', '1.2.3.4,', '1.2.3.4, ,5.6.7.8',
+       '1.2.3.4, ' * 400 + '9.9.9.9', 'é', '１.２.３.４', '1.2.3.4\x00', '0x7f.1', '2130706433', '999999999999999999999', '-1', 'a' * 300, '1.2.3.4, [::1]:80, unknown', '"1.2.3.4"', '1.2.3.4;x', '1.2.3.4/24', '127.0.0.1', '0.0.0.0', '255.255.255.255', '1.2.3.256',
+       '1..3.4', '.1.2.3', '1.2.3.4.', ':::', '1:2:3:4:5:6:7:8:9', 'g::1', '[::1]x', '[::1]:80:80']
+FORWARDED = ['for=1.2.3.4', 'for="[::1]:80"', 'for="[::1]"', 'for=[::1]', 'For=1.2.3.4;Proto=https;By=5.6.7.8', 'for=1.2.3.4;proto=https;host=a:80;by=_x', 'for=1.2.3.4, for=5.6.7.8', 'for=1.2.3.4,for=5.6.7.8', 'for=', 'for', '=', ';', ';;', ',', 'for="', 'for="a',
+             'for=";"', 'for=","', 'for=_x;host="a:b"', 'proto=', 'host=', 'by=', 'for=1.2.3.4;for=5.6.7.8', 'for=unknown', 'FOR=1.2.3.4', 'for = 1.2.3.4', ' for=1.2.3.4 ', 'for=1.2.3.4;', ';for=1.2.3.4', 'for=1.2.3.4;' * 300, 'for=1.2.3.4, ' * 300 + 'for=9.9.9.9',
+             'for="\\""', 'for="a\\', 'for=é', 'for="[::1]:99999999"', 'for="[::1"', 'for=1.2.3.4:80', 'host=é.example', 'proto=' + 'x' * 3000, '', ' ']
+PROXY_NAMES = ['X-Forwarded-For', 'X-Real-IP', 'x-forwarded-for', 'X-FORWARDED-FOR', 'CF-Connecting-IP', 'True-Client-IP', 'X-Client-IP', 'X-Cluster-Client-IP', 'Via']
+
+def proxy_headers(rng, tree, alt, tier):
+    cases = []
+    f0 = rng.choice(regular_files(tree))[0]
+    targets = [f0, '/', '/c04/dir', '/c04/dir/', '/missing', '/form-get-method?a=1', URLENC]
+    k = 0
+    for ii, ip in enumerate(IPS):
+        for ni, hn in enumerate(PROXY_NAMES if tier != 'quick' else PROXY_NAMES[:2] + [_rot(PROXY_NAMES[2:], ii)]):
+            k += 1
+            m, t = _rot(['GET', 'GET', 'HEAD', 'OPTIONS', 'POST'], k), _rot(targets, k)
+            hs, body = ([CT_URL], b'a=1') if t == URLENC else ([], b'')
+            for e in (ENTRIES if ni == 0 else (alt(),)):
+                cases.append(K.mk(tree, 'POST' if t == URLENC else m, t, hs + [(hn, ip)], body, entry=e, kind='proxy:address'))
+    for fi, fw in enumerate(FORWARDED):
+        for e in ENTRIES:
+            cases.append(K.mk(tree, _rot(['GET', 'HEAD', 'OPTIONS'], fi), _rot(targets[:5], fi), [(_rot(['Forwarded', 'Forwarded', 'forwarded', 'FORWARDED'], fi), fw)], entry=e, kind='proxy:forwarded'))
+    # several of them on one request: they agree, they disagree, one of them is junk, the list is longer than the chain of Via
+    combos = [[('X-Forwarded-For', '1.2.3.4'), ('X-Forwarded-Port', '80'), ('X-Forwarded-Proto', 'https'), ('X-Forwarded-Host', 'a.example')], [('X-Forwarded-For', '1.2.3.4'), ('X-Forwarded-Port', '')], [('X-Forwarded-For', ''), ('X-Forwarded-Port', '80')],
+              [('X-Forwarded-For', '[::1]'), ('X-Forwarded-Port', '65536')], [('X-Forwarded-For', '1.2.3.4'), ('X-Forwarded-For', '5.6.7.8')], [('X-Forwarded-For', '1.2.3.4'), ('Forwarded', 'for=5.6.7.8')], [('Forwarded', 'for=1.2.3.4'), ('Forwarded', 'for="[::1]:1"')],
+              [('X-Forwarded-For', '1.2.3.4, 5.6.7.8, 9.9.9.9'), ('Via', '1.1 a')], [('X-Forwarded-For', '1.2.3.4'), ('Via', '1.1 a, 1.1 b, 1.0 c')], [('X-Forwarded-Proto', 'https'), ('X-Forwarded-Host', '')], [('X-Forwarded-Proto', ''), ('X-Forwarded-Host', 'a')],
+              [('X-Forwarded-Host', 'a:99999'), ('Host', 'b')], [('X-Forwarded-Host', '[::1]:80'), ('X-Forwarded-Proto', 'ws')], [('X-Forwarded-Proto', 'https,http'), ('X-Forwarded-Host', 'a, b')], [('X-Forwarded-Proto', 'x' * 300), ('X-Forwarded-Host', 'é')],
+              [('X-Forwarded-Prefix', '/app'), ('X-Forwarded-Host', 'a')], [('X-Forwarded-Prefix', 'app/../..'), ('X-Forwarded-Proto', 'https')], [('X-Real-IP', '1.2.3.4'), ('X-Forwarded-For', 'junk')], [('X-Real-IP', 'junk'), ('X-Forwarded-For', '1.2.3.4')],
+              [('Max-Forwards', '0'), ('Via', '1.1 a')], [('Max-Forwards', '0')], [('Max-Forwards', '1'), ('Via', '')], [('Via', '1.1 a' + ', 1.1 a' * 500)], [('Via', ''), ('X-Forwarded-For', '')], [('X-Forwarded-Ssl', 'on'), ('X-Forwarded-Proto', 'http')],
+              [('X-Forwarded-For', '1.2.3.4'), ('Origin', 'http://o')], [('X-Forwarded-Host', 'o'), ('Origin', 'http://o'), ('Host', 'h')], [('X-Original-URL', '/c04/ten.txt')], [('X-Rewrite-URL', '/../secret.txt')], [('X-Original-URL', 'x')], [('X-HTTP-Method-Override', 'DELETE')],
+              [('X-HTTP-Method-Override', 'get')], [('X-HTTP-Method-Override', '')], [('X-Method-Override', 'é')]]
+    for ci, hs in enumerate(combos):
+        for m in ('GET', 'HEAD', 'OPTIONS', 'POST', 'TRACE'):
+            for tg in (targets if tier != 'quick' else [_rot(targets, ci), rng.choice(targets)]):
+                cases.append(K.mk(tree, m, tg, hs, entry=alt(), kind='proxy:combination'))
+    return cases
+
+# ------------------------------------------------------------------ N9: Host x the kind of target (a redirect / a link built from it)
+HOSTS = ['localhost', 'localhost:7878', 'LOCALHOST', 'localhost.', 'localhost:', ':7878', ':', 'localhost:0', 'localhost:65535', 'localhost:65536', 'localhost:-1', 'localhost:' + '9' * 45, 'localhost:7878:1', 'localhost:abc', 'localhost: 80', 'localhost :80',
+         '[::1]', '[::1]:7878', '[::1', '::1', '[::1]:', '[]', '[]:80', '[::1]:x', 'user@localhost', 'user:pw@localhost:80', '@', 'a b', 'a/b', 'a/../b', 'http://a', 'http://a/', 'a?b', 'a#b', 'é.example', 'xn--e1afmkfd.xn--p1ai', 'a' * 255 + '.example', 'a.' * 127,
+         '1.2.3.4', '1.2.3.4:80', '', ' ', '\t', 'localhost\x00', 'local\x07host', '%6c', '*', '-', '.', '..', '...', 'localhost,localhost', 'localhost, other', 'a' * 5000, 'İ.example', 'ß.example', 'localhost\r', 'a:80\rX: y', '"localhost"', '<script>', '/', '//', '\\']
+
+def host_shapes(rng, tree, alt, tier):
+    cases = []
+    f0 = rng.choice(regular_files(tree))[0]
+    targets = ['/c04/dir', '/c04/dir/', '/c04', f0, '/', '/missing', '/c04/dir?x=1', '/c04/dir#f', '/c04/pg', '/c04/nodir', 'http://h/c04/ten.txt', 'http://localhost:7878/', '//c04/dir', '/c04/dir/index.html', URLENC]
+    for hi, h in enumerate(HOSTS):
+        for ti, tg in enumerate(targets if tier != 'quick' else targets[:2] + [_rot(targets[2:], hi), rng.choice(targets[2:])]):
+            m = _rot(['GET', 'GET', 'HEAD', 'OPTIONS', 'POST'], hi + ti)
+            hn = 'Host' if (hi + ti) % 7 else _rot(['host', 'HOST'], hi)
+            cases.append(K.mk(tree, m, tg, [(hn, h)], entry=alt(), kind='host-x-target'))
+    for tg in targets:
+        for v in ('HTTP/1.1', 'HTTP/1.0', 'HTTP/0.9', 'HTTP/2.0'):
+            for m in ('GET', 'HEAD', 'OPTIONS'):
+                cases.append(K.mk(tree, m, tg, [], version=v, entry=alt(), kind='host-x-target'))                                                        # no Host at all
+                cases.append(K.mk(tree, m, tg, [('Host', 'a'), ('Host', 'b')] if m != 'HEAD' else [('Host', 'a'), ('host', 'a:80'), ('HOST', '')], version=v, entry=alt(), kind='host-x-target'))
+    return cases
+
+# ------------------------------------------------------------------ N10: credentials, cookies, integrity fields, protocol switches
+B64 = ['', 'Z', 'Zg', 'Zg=', 'Zg==', 'Zm8', 'Zm8=', 'Zm9v', 'Zm9vYg==', 'Zm9vYmE=', 'Zm9vYmFy', 'dXNlcjpwYXNz', 'dXNlcg==', 'Og==', 'dXNlcjo=', 'OnBhc3M=', 'dXNlcjpwYTpzcw==', '/w==', '//8=', 'w6k6w6k=', 'wyg=', 'AA==', 'AAAA', 'Zg===', '=', '==', '===', '====', 'Z=g=', 'Zg=a',
+       'Zm9v\x00', 'Zm 9v', ' Zm9v', 'Zm9v ', 'Zm-_', 'Zm+/', 'Zm9v!', 'é', 'Zmé=', 'A' * 4000, 'A' * 4001, 'A' * 4002, 'A' * 4003, 'dGhlIHNhbXBsZSBub25jZQ==', 'dGhlIHNhbXBsZSBub25jZQ=', 'dGhlIHNhbXBsZSBub25jZQ', 'dGhlIHNhbXBsZSBub25jZWE=', '"Zm9v"', ':Zm9v:', '::']
+COOKIES = ['a=b', 'a=b; c=d', 'a=b;c=d', 'a', 'a; b', '=b', 'a=', '=', ';', ';;', '; ', 'a=b;', 'a=b; ', ' a=b', 'a="b"', 'a="b', 'a=b"', 'a=b=c', 'a=b; a=c', 'A=b; a=c', '$Version=1; a=b; $Path=/', 'a=b, c=d', 'a=%zz', 'a=%', 'a=%c3', 'a=é', 'é=a', 'a=b;;c=d', 'a=b; ; c=d',
+           'sid=' + 'x' * 4092, 'sid=' + 'x' * 4093, 'sid=' + 'x' * 4096, 'a=b; ' * 600 + 'z=1', '; '.join('c%d=v' % i for i in range(300)), 'a=\x00', 'a=b\x00; c=d', '', ' ', '__Host-a=b', '__Secure-a=b', 'a=b; Path=/; HttpOnly', 'session=eyJhIjoxfQ==.sig', 'session=.', 'session=..',
+           'a=' + 'é' * 1000, 'a' + 'é' * 1000 + '=1']
+AUTHS = ['Basic', 'Basic ', 'Basic  ', 'Basic\t', 'basic', 'BASIC', 'Bearer', 'Bearer ', 'bearer', 'Digest', 'Negotiate', 'NTLM', '', ' ', 'Basic,', 'Basic=', 'Basic Basic', 'Token token=', 'é']
+DIGESTS = ['Digest username="a", realm="b", nonce="", uri="/", response="x"', 'Digest username="a', 'Digest ,', 'Digest =', 'Digest username=a,username=b', 'Digest username="a", nc=00000001, qop=auth', 'Digest nc=ffffffffffffffffff', 'Digest username="é"', 'Digest ' + 'a="b", ' * 500,
+           'Digest username="a"realm="b"', 'Digest username', 'Digest username=', 'Digest ="a"', 'Digest username="a\\"b"', 'Digest uri="' + '/' * 3000 + '"']
+
+def credentials(rng, tree, alt, tier):
+    cases = []
+    f0 = rng.choice(regular_files(tree))[0]
+    targets = [f0, '/', '/missing', '/c04/dir/', '/form-get-method?a=1']
+    k = 0
+    for si, scheme in enumerate(AUTHS):
+        for bi, v in enumerate(B64 if (tier != 'quick' or si < 2) else [_rot(B64, si * 5 + j) for j in range(5)]):
+            k += 1
+            sep = ' ' if scheme and not scheme.endswith((' ', '\t', ',', '=')) else ''
+            hn = _rot(['Authorization', 'Authorization', 'Proxy-Authorization', 'authorization', 'AUTHORIZATION'], k)
+            for e in (ENTRIES if si == 0 else (alt(),)):
+                cases.append(K.mk(tree, _rot(['GET', 'HEAD', 'OPTIONS', 'POST', 'PUT', 'DELETE'], k), _rot(targets, k), [(hn, scheme + sep + v)], entry=e, kind='credentials:authorization'))
+    for di, d in enumerate(DIGESTS):
+        cases.append(K.mk(tree, _rot(['GET', 'HEAD', 'POST'], di), _rot(targets, di), [('Authorization', d)], entry=alt(), kind='credentials:authorization'))
+    cases.append(K.mk(tree, 'GET', f0, [('Authorization', 'Basic dXNlcjpwYXNz'), ('Authorization', 'Bearer x')], entry=alt(), kind='credentials:authorization'))
+    cases.append(K.mk(tree, 'GET', f0, [('Authorization', 'Basic dXNlcjpwYXNz'), ('Proxy-Authorization', 'Basic /w==')], entry=alt(), kind='credentials:authorization'))
+    for ci, ck in enumerate(COOKIES):
+        for e in ENTRIES:
+            cases.append(K.mk(tree, _rot(['GET', 'GET', 'HEAD', 'OPTIONS', 'POST'], ci), _rot(targets, ci), [(_rot(['Cookie', 'Cookie', 'cookie', 'COOKIE'], ci), ck)], entry=e, kind='credentials:cookie'))
+        cases.append(K.mk(tree, 'GET', f0, [('Cookie', ck), ('Cookie', 'a=b')], entry=alt(), kind='credentials:cookie'))
+    # a digest of the body next to the body: it matches / does not / is not base64 / names an unknown algorithm
+    import hashlib, base64
+    body = b'a=1&b=2'
+    md5, sha = base64.b64encode(hashlib.md5(body).digest()).decode(), base64.b64encode(hashlib.sha256(body).digest()).decode()
+    digs = [('Content-MD5', md5), ('Content-MD5', md5[:-1]), ('Content-MD5', md5.lower()), ('Digest', 'sha-256=' + sha), ('Digest', 'SHA-256=' + sha), ('Digest', 'md5=' + md5 + ',sha-256=' + sha), ('Content-Digest', 'sha-256=:' + sha + ':'), ('Content-Digest', 'sha-256=:' + sha),
+            ('Content-Digest', 'sha-256=' + sha + ':'), ('Content-Digest', 'sha-256=::'), ('Content-Digest', 'sha-256=:'), ('Content-Digest', 'sha-256='), ('Content-Digest', 'sha-256'), ('Content-Digest', '=::'), ('Content-Digest', 'sha-512=:' + sha + ':'),
+            ('Repr-Digest', 'sha-256=:' + sha + ':, md5=:' + md5 + ':'), ('Want-Content-Digest', 'sha-256=10, md5=0'), ('Want-Content-Digest', 'sha-256=NaN'), ('Content-Digest', 'sha-256=:' + 'A' * 4000 + ':')]
+    digs += [('Content-MD5', v) for v in B64] + [('Content-Digest', 'sha-256=:' + v + ':') for v in (B64 if tier != 'quick' else B64[::3])]
+    for di, (hn, v) in enumerate(digs):
+        for m, t, hs, bd in ((('POST', URLENC, [CT_URL], body),) if tier == 'quick' and di % 3 else (('POST', URLENC, [CT_URL], body), ('POST', URLENC, [CT_URL], b'a=1&b=3'), ('GET', f0, [], b''), ('PUT', '/c04/new.txt', [], body))):
+            cases.append(K.mk(tree, m, t, hs + [(hn, v)], bd, entry=alt(), kind='credentials:digest'))
+    # a protocol switch: Upgrade with / without the Connection token it needs, the key and the version next to it
+    ups = ['websocket', 'WebSocket', 'WEBSOCKET', 'h2c', 'HTTP/2.0', 'TLS/1.0, HTTP/1.1', 'websocket, h2c', '', ' ', ',', 'websocket/13', 'é', 'x' * 3000]
+    for ui, up in enumerate(ups):
+        for conn in ('Upgrade', 'upgrade', 'keep-alive, Upgrade', 'close', None):
+            for ki, key in enumerate(B64 if tier != 'quick' else ['dGhlIHNhbXBsZSBub25jZQ==', None, _rot(B64, ui * 5 + (0 if conn is None else len(conn))), rng.choice(B64)]):
+                hs = [('Upgrade', up)] + ([('Connection', conn)] if conn is not None else []) + ([('Sec-WebSocket-Key', key)] if key is not None else []) + [('Sec-WebSocket-Version', _rot(['13', '13', '8', '', 'x', '256', '13, 8', '-1'], ui + ki))]
+                if up == 'h2c' or 'HTTP/2' in up: hs.append(('HTTP2-Settings', key or ''))
+                if rng.chance(1, 3): hs = hs[::-1]
+                cases.append(K.mk(tree, _rot(['GET', 'GET', 'POST', 'OPTIONS', 'HEAD', 'CONNECT'], ui + ki), _rot(['/', f0, '/ws', '/missing'], ki), hs, entry=alt(), kind='credentials:upgrade'))
+    return cases
+
+# ------------------------------------------------------------------ N11: proactive negotiation (quality values, lists) x the type of the file
+def negotiation(rng, tree, alt, tier):
+    cases = []
+    f0 = rng.choice(regular_files(tree))[0]
+    targets = [f0, '/c04/ten.txt', '/c04/pg', '/c04/dir/', '/c04/r300.bin', '/c04/été.txt', '/', '/missing', '/style.css']
+    accepts = ['text/html', '*/*', 'text/*', 'text/plain', 'text/plain;q=0', '*/*;q=0', 'image/png', 'image/*', 'text/html;level=1;q=0.5', 'text/html; charset="utf-8"', 'text', '/', 'text/', '/html', 'a/b/c', ';', ',', '', ' ', 'text/html, */*;q=0.1',
+               'text/plain;q=0, */*;q=0', 'text/plain;q=1, text/plain;q=0', 'TEXT/PLAIN', 'text/plain;Q=1', 'text/plain;q=NaN, text/html;q=0.5', 'text/html;q=nan,*/*;q=nan', 'text/plain;q=inf', 'text/plain;q=', 'text/plain;q', 'text/plain;q=1.0000', 'text/plain;q=-1',
+               'text/plain;q=2', 'text/plain;q=1e400', 'text/plain;q=0.0005', ', '.join('a/b%d;q=0.%d' % (i, i % 10) for i in range(300)), 'text/plain' + ';x=y' * 600, 'text/plain;q=0.5;q=0.7', 'é/é', 'text/plain\x00', '*', '*/plain', 'text/html,', ',text/html',
+               'text/html;q="1"', 'text/html;q=1;ext', 'application/octet-stream', 'application/octet-stream;q=0', 'text/plain;q=0.5, */*;q=0.5']
+    langs = ['en', 'en-US', 'en-US,en;q=0.9', '*', '*;q=0', 'en;q=0', 'en;q=NaN, de;q=0.5', 'EN', 'e', 'en-', '-US', 'en_US', 'i-klingon', 'zh-Hant-TW', 'x' * 3000, 'en' + ', de' * 600, '', ' ', ',', 'é', 'en;q=', 'en;q', 'en;q=2', 'en-US-x-' + 'a-' * 500 + 'b']
+    for ai, a in enumerate(accepts):
+        for e in ENTRIES:
+            cases.append(K.mk(tree, _rot(['GET', 'GET', 'HEAD', 'OPTIONS', 'POST'], ai), _rot(targets, ai), [(_rot(['Accept', 'Accept', 'accept', 'ACCEPT'], ai), a)], entry=e, kind='negotiation:accept'))
+        cases.append(K.mk(tree, 'GET', _rot(targets, ai + 1), [('Accept', a), ('Range', 'bytes=0-0')], entry=alt(), kind='negotiation:accept'))
+    for li, l in enumerate(langs):
+        cases.append(K.mk(tree, _rot(['GET', 'HEAD'], li), _rot(targets, li), [('Accept-Language', l)], entry=alt(), kind='negotiation:other'))
+        cases.append(K.mk(tree, 'GET', _rot(targets, li), [(_rot(['Accept-Charset', 'TE', 'Accept-Ranges', 'Prefer', 'Priority', 'Accept-CH', 'Sec-CH-UA', 'Sec-CH-UA-Mobile', 'Sec-Fetch-Dest', 'Sec-Fetch-Mode', 'Save-Data', 'Cache-Control', 'Pragma'], li), _rot(accepts + langs, li * 7))], entry=alt(), kind='negotiation:other'))
+    for v in ['return=minimal', 'return=representation', 'respond-async, wait=10', 'wait=-1', 'wait=99999999999999999999', 'handling=lenient', 'return', '=', ';', '', 'return=minimal; foo="a;b"', 'RETURN=MINIMAL', 'return=minimal, return=representation', 'wait=1.5', 'wait=']:
+        for m, t, hs, bd in (('GET', f0, [], b''), ('POST', URLENC, [CT_URL], b'a=1'), ('PUT', '/c04/new.txt', [], b'x'), ('HEAD', f0, [], b'')):
+            cases.append(K.mk(tree, m, t, hs + [('Prefer', v)], bd, entry=alt(), kind='negotiation:other'))
+    for v in ['no-cache', 'no-store', 'max-age=0', 'max-age=-1', 'max-age=99999999999999999999', 'max-age=', 'max-age', 'only-if-cached', 'max-stale', 'max-stale=NaN', 'min-fresh=1e400', 'no-cache, no-store, max-age=0', 'NO-CACHE', '', ',', '=', 'max-age="5"', 'max-age=5, max-age=6']:
+        for m in ('GET', 'HEAD'):
+            cases.append(K.mk(tree, m, _rot(targets, len(v)), [('Cache-Control', v)] + ([('Pragma', 'no-cache')] if len(v) % 2 else []) + ([('If-None-Match', '*')] if len(v) % 3 == 0 else []), entry=alt(), kind='negotiation:other'))
+    return cases
+
+# ------------------------------------------------------------------ N13: files around the sizes a fast path / a streaming path / a 32-bit counter switches at
+THRESHOLDS = [4095, 4096, 4097, 8191, 8192, 8193, 16384, 32768, 65535, 65536, 65537, 131072]
+BIG = 1000000
+# Regression of F77 (found by this audit, repaired): Log::request_response added the size of the FILE once per range part into an i32; 2 148 parts of a
+# 1 000 000-byte file exceed i32::MAX and the addition panicked (overflow checks on) before anything was written.  The inputs always run.
+WITH_OPEN_FINDINGS = True
+
+def size_batches(rng, tier):
+    t = S.Tree(b'lvl0/root')
+    root = t.cwd + b'/'
+    t.file(b'lvl0/secret.txt', S.marker(b'lvl0/secret.txt'))
+    for n in THRESHOLDS: t.file(root + b'sz/f%d.bin' % n, bytes((j * 29 + n + (j >> 8)) & 0xff for j in range(n)))
+    t.file(root + b'sz/big.bin', bytes((j * 7 + (j >> 8) + (j >> 16)) & 0xff for j in range(BIG)))
+    t.file(root + b'sz/big/index.html', b'<p>' + b'i' * 70000 + b'</p>').file(root + b'sz/bigpage.html', b'<p>' + b'h' * 70000 + b'</p>')
+    t.link(root + b'sz/big.lnk', b'big.bin')
+    t.names = []
+    alt = Alt(0)
+    cases = []
+    for n in THRESHOLDS + [BIG]:
+        tg = '/sz/f%d.bin' % n if n != BIG else '/sz/big.bin'
+        rs = [None, 'bytes=0-0', f'bytes={n - 1}-', f'bytes={n - 1}-{n - 1}', f'bytes={n - 1}-{n}', f'bytes={n}-', 'bytes=-1', f'bytes=-{n}', f'bytes=-{n + 1}', f'bytes=0-{n - 1}', f'bytes=0-{n - 2}', f'bytes=1-', 'bytes=4095-4096', 'bytes=4096-', 'bytes=-4096', 'bytes=0-4095',
+              'bytes=0-65535', 'bytes=65535-65536', 'bytes=0-0,4096-4096', f'bytes=0-0,{n - 1}-', f'bytes=0-{n - 1},0-{n - 1}']
+        for ri, r in enumerate(rs):
+            if n == BIG and r is not None and (r.count('0-' + str(n - 1)) > 1): continue
+            for m in (('GET', 'HEAD', 'OPTIONS') if (r is None or tier != 'quick') else (_rot(['GET', 'GET', 'GET', 'HEAD'], ri),)):
+                cases.append(K.mk(t, m, tg, [('Range', r)] if r else [], entry=alt(), kind='size-threshold'))
+        for ws in ('c:4096', 'c:65536', 's:4096.0', 's:1.1.1', 'e:1'):
+            cases.append(K.mk(t, 'GET', tg, [], entry=alt(), ws=ws, kind='transport:size-threshold'))
+    for tg in ('/sz/big/', '/sz/big', '/sz/bigpage', '/sz/big.lnk'):
+        for r in (None, 'bytes=0-0', 'bytes=65536-', 'bytes=-1', 'bytes=0-0,70000-'):
+            for m in ('GET', 'HEAD'):
+                cases.append(K.mk(t, m, tg, [('Range', r)] if r else [], entry=alt(), kind='size-threshold'))
+    # many parts of one big file: what is summed per part (lengths, sizes) stays below 2^31 here (2 147 x 1 000 000)
+    for k in (2, 100, 1000, 2000, 2146, 2147):
+        for e in ENTRIES:
+            cases.append(K.mk(t, 'GET', '/sz/big.bin', [('Range', 'bytes=' + ','.join(['0-0'] * k))], entry=e, kind='many-parts-of-a-big-file'))
+    cases.append(K.mk(t, 'GET', '/sz/big.bin', [('Range', 'bytes=' + ','.join('%d-%d' % (i * 400, i * 400 + 399) for i in range(900)))], entry=alt(), kind='many-parts-of-a-big-file'))
+    cases.append(K.mk(t, 'HEAD', '/sz/big.bin', [('Range', 'bytes=' + ','.join(['0-0'] * 2147))], entry=alt(), kind='many-parts-of-a-big-file'))
+    if WITH_OPEN_FINDINGS:
+        for k in (2148, 2400):
+            for e in ENTRIES:
+                cases.append(K.mk(t, 'GET', '/sz/big.bin', [('Range', 'bytes=' + ','.join(['0-0'] * k))], entry=e, kind='many-parts-of-a-big-file', note='open-finding-i32-log-sum'))
+    return [(t, cases)]
+
+# ------------------------------------------------------------------ N12: histories - the same target again, under another method / range, and after the file behind it changed
+def history_batches(rng, tier):
+    """[(tree, cases)] run WITHOUT the model (it keeps no state between two requests): one process answers a sequence of requests for the same targets, the
+    tree is rebuilt in place (`tree` line of the harness, same root) with the file shorter / empty / longer / gone / a directory / a dangling link, and the same
+    sequence follows.  A cache or a remembered size that goes stale must still answer every connection."""
+    out = []
+    def base(root=None):
+        t = S.Tree(b'lvl0/root')
+        if root is not None: t.root = root
+        r = t.cwd + b'/'
+        t.file(b'lvl0/secret.txt', S.marker(b'lvl0/secret.txt'))
+        t.file(r + b'h/other.txt', b'other file').file(r + b'h/sub/keep.txt', b'keep')
+        t.names = []
+        return t, r
+    content = bytes((i * 13 + 1) & 0xff for i in range(300))
+    def variant(kind, root):
+        t, r = base(root)
+        def put(name, c):
+            if kind == 'gone': return
+            if kind == 'dir': t.file(r + name + b'/inner.txt', b'inside'); return
+            if kind == 'dangling': t.link(r + name, b'nowhere'); return
+            if kind == 'link': t.link(r + name, b'other.txt'); return
+            t.file(r + name, {'full': c, 'shorter': c[:10], 'one': c[:1], 'empty': b'', 'longer': c * 3, 'same-size': bytes(x ^ 0xff for x in c)}[kind])
+        put(b'h/data.txt', content); put(b'h/d/index.html', b'<p>' + content[:200].hex().encode() + b'</p>'); put(b'h/page.html', b'<p>' + content[:100].hex().encode() + b'</p>')
+        put(b'h/data.txt.gz', content[:50])
+        if kind != 'gone': t.link(r + b'h/ln.txt', b'data.txt')
+        t.dir(r + b'h/d')
+        return t
+    t0 = variant('full', None)
+    def retree(kind):
+        v = variant(kind, t0.root)
+        c = K.mk(t0, '?', '?', raw=b'', kind='retree:' + kind)
+        c.line = v.line()
+        return c
+    def sequence(tag):
+        seq = []
+        for tg in ('/h/data.txt', '/h/d/', '/h/d', '/h/page', '/h/ln.txt'):
+            steps = [('GET', []), ('GET', []), ('HEAD', []), ('GET', [('Range', 'bytes=0-0')]), ('GET', [('Range', 'bytes=250-')]), ('GET', [('Range', 'bytes=-5')]), ('GET', [('Range', 'bytes=0-9,290-299')]), ('OPTIONS', [('Origin', 'http://o')]),
+                     ('GET', [('Accept-Encoding', 'gzip')]), ('GET', [('If-None-Match', '*')]), ('GET', [('If-Modified-Since', IMF)]), ('HEAD', [('Range', 'bytes=299-')]), ('GET', [('Range', 'bytes=11-')]), ('GET', [])]
+            if tier == 'quick': steps = steps[:8] + [rng.choice(steps[8:]), steps[-1]]
+            for m, hs in steps:
+                seq.append(K.mk(t0, m, tg, hs, entry=_rot(ENTRIES, len(seq) + len(tag)), kind='history:' + tag))
+        return seq
+    cases = sequence('first')
+    for kind in ('shorter', 'full', 'empty', 'full', 'one', 'longer', 'gone', 'full', 'dir', 'full', 'dangling', 'full', 'link', 'same-size'):
+        cases.append(retree(kind))
+        cases += sequence('after-' + kind)
+    out.append((t0, cases))
+    return out
+
+# ------------------------------------------------------------------ collection of the second pass
+GROUPS2 = [cut_anywhere, conditionals, numeric_headers, expect_and_length, pipelining, chunked, proxy_headers, host_shapes, credentials, negotiation]
+
+def feature_batches(rng, tier):
+    out = []
+    for rep in range(1 if tier == 'quick' else 2):
+        for gi, g in enumerate(GROUPS2):
+            r = rng.fork(f'{g.__name__}:{rep}')
+            tree = prepare_tree(r, small=(rep == 0))
+            out.append((tree, g(r, tree, Alt(gi + rep), tier)))
+    out += sidecar_batches(rng.fork('sidecars'), tier)
+    out += size_batches(rng.fork('sizes'), tier)
+    return out
+
+def feature_config_batches(rng, tier):
+    """[(env pairs, tree, cases)]: the requests of the second pass that carry a body or a second request, with a request buffer so small that it ends
+    inside the head, inside the body, inside a chunk, inside the second request (the buffer size is configuration: 256 and 1 000 bytes)"""
+    out = []
+    for ai, alloc in enumerate((256, 1000) if tier == 'quick' else (64, 256, 257, 1000, 4096)):
+        d = dict(S.DEFAULT_ENV)
+        d['RWS_CONFIG_REQUEST_ALLOCATION_SIZE_IN_BYTES'] = str(alloc)
+        r = rng.fork(f'feature-config:{alloc}')
+        t = prepare_tree(r)
+        cases = []
+        for g in (expect_and_length, pipelining, chunked, conditionals, credentials):
+            cs = [c for c in g(r.fork(g.__name__), t, Alt(ai), 'quick') if c.ws == 'all' and c.flush == 'ok']
+            if tier == 'quick':
+                r.shuffle(cs)
+                cs = cs[:150]
+            for c in cs:
+                cases.append(K.mk(t, c.method, c.target, raw=c.raw, entry=c.entry, app=c.app, alloc=alloc, kind='config:buffer-%d-x-%s' % (alloc, c.kind.split(':')[0])))
+        out.append((list(d.items()), t, cases))
+    return out
+
+# ------------------------------------------------------------------ N14: the process after many requests (what one answer path keeps open adds up)
+FD_LIMIT = 192          # soft limit of open files the harness processes run under (props/c04.py lowers it): a leaked descriptor per request shows within REPEATS
+REPEATS = FD_LIMIT + 32
+
+def repeat_batches(rng, tier):
+    """every answer path that touches the file system, REPEATS times through each entry point in ONE process, interleaved (a path that forgets to close what it
+    opened runs out of descriptors and can no longer answer: 404 / 500 instead of 200 at best, an unwrap on the failed open at worst)"""
+    paths = [('GET', '/c04/ten.txt', []), ('HEAD', '/c04/ten.txt', []), ('OPTIONS', '/c04/ten.txt', [('Origin', 'http://o')]), ('GET', '/c04/r300.bin', [('Range', 'bytes=1-100')]), ('GET', '/c04/r300.bin', [('Range', 'bytes=0-9,20-29,290-')]),
+             ('GET', '/c04/ten.txt', [('Range', 'bytes=50-')]), ('GET', '/c04/dir/', []), ('GET', '/c04/dir', [('Range', 'bytes=0-0')]), ('GET', '/c04/pg', []), ('GET', '/c04/ln.txt', []), ('GET', '/missing', []), ('GET', '/c04/empty.bin', []),
+             ('GET', '/', []), ('GET', '/style.css', []), ('GET', '/c04/nodir/', []), ('GET', '/c04/ten.txt', [('Accept-Encoding', 'gzip'), ('If-None-Match', '*')])]
+    out = []
+    per = 4
+    for bi in range(0, len(paths), per):
+        t = prepare_tree(rng.fork(f'repeat:{bi}'))
+        cases = []
+        for k in range(REPEATS):
+            for m, tg, hs in paths[bi:bi + per]:
+                for e in ENTRIES:
+                    cases.append(K.mk(t, m, tg, hs, entry=e, kind='repeated-in-one-process'))
+        out.append((t, cases))
     return out
